@@ -1,6 +1,6 @@
 SPEC = dict(
     pkg="engine",
-    hooks=["engine", "lib/fileops"],
+    hooks=["engine", "engine/immutable", "lib/fileops"],
     test="TestVerifC02",
     level="exploration",
     workers=16,
